@@ -23,6 +23,7 @@ RULE = (
     "lone backtest of a fresh template (RNG seeded identically before each run) whatever the order and siblings; a second run() changes nothing and calls no algo. "
     "hashseed: the same spec executed in fresh interpreter processes with PYTHONHASHSEED 0, 1, 2 and random gives bit-identical histories. "
     "hashseed_limitdeltas: dated targets that shrink from many names to a few under LimitDeltas with commissions (several held names get their wind-down weight in one call), same comparison across hash seeds. "
+    "dynamic: a strategy without declared children opens sub-strategies while it runs (pairs-trading pattern): the caller's frame and the frame the backtest exposes as .data are unchanged, a second backtest built on that .data equals one built on the original. "
     "twodata: one template run over two data sets (same tickers and dates, different prices) in generated orders within one process; each run equals a lone run of that data in a fresh process. "
     "benchmark: benchmark_random(backtest, template, nsim) builds nsim backtests from the template it is handed: template and data fingerprints unchanged (functions by identity, bound methods with their owner), the template's commission function answers as before although the benchmarked backtest pays commissions, nsim distinct random results. "
     "non-trivial = at least two backtests from one template with a stateful or RNG algo (template) / a declared-children or RNG spec across >= 3 hash seeds (hashseed). distinct = distinct spec hashes."
@@ -263,6 +264,69 @@ def case_hashseed(ctx, spec):
 
 
 @st.composite
+def dynamic_spec(draw):
+    """a strategy that declares no children (the whole data set is its universe) opens sub-strategies while it runs, the way the pairs
+    trading example does"""
+    ds = draw(gen.dates(5, 10, kinds=("bday", "daily")))
+    n = len(ds)
+    nt = draw(st.integers(2, 4))
+    tickers = gen.TICKERS[:nt]
+    pr = {t: draw(gen.price_path(n, vol=0.02, decimals=4)) for t in tickers}
+    spawns = []
+    for i in range(draw(st.integers(1, 2))):
+        spawns.append(["SpawnSub", {"date": ds[draw(st.integers(0, n - 2))], "name": "T%d" % (i + 1), "tickers": draw(st.lists(st.sampled_from(tickers), min_size=1, max_size=2, unique=True)), "frac": draw(st.sampled_from([0.1, 0.2, 0.3])), "declare": True}])
+    own = draw(st.sampled_from([[], [["RunOnce", {}], ["SelectThese", {"tickers": [tickers[0]]}], ["WeighSpecified", {"weights": {tickers[0]: 0.3}}], ["Rebalance", {}]]]))
+    spec = {
+        "dates": ds,
+        "prices": pr,
+        "rng_seed": 0,
+        "frames": {},
+        "additional": [],
+        "integer_positions": draw(st.booleans()),
+        "initial_capital": 1e6,
+        "fee": {"kind": "none"},
+        "tree": {"name": "root", "kind": "Strategy", "algos": spawns + own},
+    }
+    return spec
+
+
+def case_dynamic(ctx, spec):
+    """the frame a backtest exposes as .data is the frame it was given (plus the synthetic first row) also after sub-strategies were opened
+    during the run, so a second backtest built on it - a common way to reuse prepared data - behaves like one built on the original"""
+    bt = ctx.bt
+    data = interp.mk_data(spec)
+    fp_in = fp(data)
+    cols_in = [str(c) for c in data.columns]
+    try:
+        b = interp.mk_backtest(bt, spec, data=data)
+        interp.seed_rngs(spec)
+        with contextlib.redirect_stdout(io.StringIO()):
+            b.run()
+    except Exception as e:
+        raise Violation("a strategy opening sub-strategies while it runs raised %s: %s" % (type(e).__name__, str(e)[:200]), signature="c11:dynamic-raises")
+    if fp(data) != fp_in:
+        raise Violation("running the backtest modified the caller's data frame", signature="c11:data-mutated:dynamic")
+    got_cols = [str(c) for c in b.data.columns]
+    if got_cols != cols_in:
+        raise Violation("after the run Backtest.data has columns %s, it was built from %s (sub-strategies opened during the run: %s)" % (got_cols, cols_in, [c for c in b.strategy.children if c not in cols_in]), signature="c11:backtest-data-grew")
+    if not np.array_equal(np.asarray(b.data.iloc[1:], dtype=float), np.asarray(data, dtype=float), equal_nan=True):
+        raise Violation("after the run Backtest.data no longer holds the prices it was given", signature="c11:backtest-data-values")
+    # reuse: a plain second backtest over the first one's .data equals the same backtest over the original frame
+    def plain(frame):
+        s2 = bt.Strategy("second", [bt.algos.RunOnce(), bt.algos.SelectAll(), bt.algos.WeighEqually(), bt.algos.Rebalance()])
+        b2 = bt.Backtest(s2, frame, integer_positions=False, progress_bar=False)
+        b2.run()
+        return [float(x) for x in b2.strategy.values], sorted(b2.strategy.children)
+
+    v_reuse, kids_reuse = plain(b.data.iloc[1:])
+    v_orig, kids_orig = plain(data)
+    if kids_reuse != kids_orig or v_reuse != v_orig:
+        raise Violation("a second backtest built on the first one's .data trades %s and ends at %r; built on the original frame it trades %s and ends at %r" % (kids_reuse, v_reuse[-1], kids_orig, v_orig[-1]), signature="c11:dynamic-reuse")
+    spawned = [c for c in b.strategy.children if isinstance(b.strategy.children[c], bt.core.StrategyBase)]
+    return {"nontrivial": len(spawned) >= 1, "labels": ["spawned=%d" % len(spawned)]}
+
+
+@st.composite
 def hashseed_limitdeltas_spec(draw):
     """LimitDeltas walks the union of the held children and the targets: when the targets shrink, several held names without a target get
     theirs in one call. The order in which that happens must not depend on the interpreter's string hashing (Rebalance trades, and
@@ -424,8 +488,8 @@ def case_benchmark(ctx, spec):
     return {"nontrivial": spec["nsim"] >= 2, "labels": ["nsim=%d" % spec["nsim"]] + (["benchmarked_backtest_pays_commissions"] if fee else [])}
 
 
-SUBS = {"template": case_template, "hashseed": case_hashseed, "benchmark": case_benchmark, "twodata": case_twodata, "hashseed_limitdeltas": case_hashseed}
-STRATS = {"template": template_spec, "hashseed": hashseed_spec, "benchmark": benchmark_spec, "twodata": twodata_spec, "hashseed_limitdeltas": hashseed_limitdeltas_spec}
+SUBS = {"template": case_template, "hashseed": case_hashseed, "benchmark": case_benchmark, "twodata": case_twodata, "hashseed_limitdeltas": case_hashseed, "dynamic": case_dynamic}
+STRATS = {"template": template_spec, "hashseed": hashseed_spec, "benchmark": benchmark_spec, "twodata": twodata_spec, "hashseed_limitdeltas": hashseed_limitdeltas_spec, "dynamic": dynamic_spec}
 
 
 def shard(ctx):
@@ -433,4 +497,5 @@ def shard(ctx):
     run_sub(ctx, "hashseed", hashseed_spec(), lambda s: case_hashseed(ctx, s), ctx.n(32, 400))
     run_sub(ctx, "benchmark", benchmark_spec(), lambda s: case_benchmark(ctx, s), ctx.n(160, 2000))
     run_sub(ctx, "twodata", twodata_spec(), lambda s: case_twodata(ctx, s), ctx.n(48, 600))
+    run_sub(ctx, "dynamic", dynamic_spec(), lambda s: case_dynamic(ctx, s), ctx.n(320, 4000))
     run_sub(ctx, "hashseed_limitdeltas", hashseed_limitdeltas_spec(), lambda s: case_hashseed(ctx, s), ctx.n(48, 600))
